@@ -1,6 +1,7 @@
 #![allow(dead_code, unused_variables, unused_imports, unused_mut, unused_macros, clippy::all)]
 mod ap;
 mod gen;
+mod refm;
 mod reg;
 mod rep;
 mod rng;
